@@ -197,6 +197,12 @@ def find_emitters(ctx, rule):
 
             f = fold_consts(scalarise_counters(expand_table_dispatch(f)))  # tallies kept in a Counter keyed through a literal table
         f = inline_access_aliases(desugar_dict_get(with_str_consts(f)))
+        if any(isinstance(c, ast.Call) and isinstance(c.func, ast.Attribute) and c.func.attr == "join" and const_value(c.func.value, None) == "" for c in walk_own(f.node)):
+            from ..core import string_builders
+
+            from ..core import merge_tail_accumulator
+
+            f = merge_tail_accumulator(string_builders(f))  # pieces collected in a list and joined once: the string they build
         recs = record_params(f, schema) | ({"self"} if f.cls == extras["class"] else set())
         if not recs:
             continue
